@@ -28,7 +28,7 @@ KINDS = [
      HANDSHAKE + [['expire', 'A', 0, 0], D], D),
     ('init_after_cookie', {'_halfopen_b': 11}, [['acquire', 'A', 80], D], D),
 ]
-PATTERNS = {'fine': [1] * 30, 'coarse': [7] * 9, 'mixed': [3, 1, 1, 4, 2, 9, 1, 1, 1, 6, 5, 1, 1, 12, 3, 3, 3, 3]}
+PATTERNS = {'fine': [1] * 30, 'fine+stale': [1] * 30, 'coarse': [7] * 9, 'mixed': [3, 1, 1, 4, 2, 9, 1, 1, 1, 6, 5, 1, 1, 12, 3, 3, 3, 3]}
 
 
 def focus(r):
@@ -88,7 +88,15 @@ def lost_request_run(ctx, kind, pattern_name, pattern, seed):
                 p.sim.net.clear()
                 k = 0
                 total = 1
+                # authentic but stale datagrams (earlier responses of the peer, delivered again): they answer nothing
+                stale = [d for (s_, dst_, d) in p.history if dst_ == '192.168.0.1' and (d[19] & 0x20) and d[18] != 34] \
+                    if pattern_name.endswith('+stale') else []
                 for dt in pattern:
+                    for d in stale[-2:]:
+                        extra = p.A.datagram('192.168.0.1', '192.168.0.2', d)
+                        if extra:
+                            raise Fail('retransmit:schedule', f'{name}/{pattern_name}: a stale copy of an earlier response '
+                                       f'made A send {len(extra)} datagram(s)')
                     out = p.do(['tick', dt])
                     p.sim.net.clear()
                     now = p.sim.clock
@@ -308,7 +316,7 @@ def crash_run(ctx, seed, scenario, cut):
 def correspond(ctx):
     results = []
     fails = []
-    pats = ['fine', 'coarse'] if ctx.quick() else list(PATTERNS)
+    pats = ['fine', 'coarse', 'fine+stale'] if ctx.quick() else list(PATTERNS)
     for kind in KINDS:
         for pn in pats:
             f, res = lost_request_run(ctx, kind, pn, PATTERNS[pn], ctx.rng.getrandbits(32))
@@ -326,7 +334,7 @@ def oracle(ctx, deep):
     fails = list(getattr(ctx, 'oracle_fails', []))
     if not hasattr(ctx, 'oracle_fails'):
         for kind in KINDS:
-            for pn in (PATTERNS if deep else ['fine', 'coarse']):
+            for pn in (PATTERNS if deep else ['fine', 'coarse', 'fine+stale']):
                 f, _ = lost_request_run(ctx, kind, pn, PATTERNS[pn], ctx.rng.getrandbits(32))
                 fails += f
     if deep:
